@@ -138,6 +138,13 @@ type frontend struct {
 	evs      []ev
 	unlocked int // callbacks that ran without the terminal lock held
 	shadow   *shadowScreen
+	// most recent values announced (C10)
+	haveCursor, haveStyle bool
+	lastCX, lastCY        int
+	lastStyle             [3]uint32
+	lastFlags             map[int]int
+	lastInts              map[int]int
+	lastStrs              map[int]string
 }
 
 func (f *frontend) lockCheck() {
@@ -164,10 +171,12 @@ func (f *frontend) ScrollLines(y int) { f.lockCheck(); f.evs = append(f.evs, ev{
 func (f *frontend) CursorMoved(x, y int) {
 	f.lockCheck()
 	f.evs = append(f.evs, ev{kind: 2, a: x, b: y})
+	f.haveCursor, f.lastCX, f.lastCY = true, x, y
 }
 func (f *frontend) StyleChanged(s termemu.Style) {
 	f.lockCheck()
 	f.evs = append(f.evs, ev{kind: 3, st: styleWords(s)})
+	f.haveStyle, f.lastStyle = true, styleWords(s)
 }
 func (f *frontend) ViewFlagChanged(v termemu.ViewFlag, value bool) {
 	f.lockCheck()
@@ -176,14 +185,26 @@ func (f *frontend) ViewFlagChanged(v termemu.ViewFlag, value bool) {
 		b = 1
 	}
 	f.evs = append(f.evs, ev{kind: 4, a: int(v), b: b})
+	if f.lastFlags == nil {
+		f.lastFlags = map[int]int{}
+	}
+	f.lastFlags[int(v)] = b
 }
 func (f *frontend) ViewIntChanged(v termemu.ViewInt, value int) {
 	f.lockCheck()
 	f.evs = append(f.evs, ev{kind: 5, a: int(v), b: value})
+	if f.lastInts == nil {
+		f.lastInts = map[int]int{}
+	}
+	f.lastInts[int(v)] = value
 }
 func (f *frontend) ViewStringChanged(v termemu.ViewString, value string) {
 	f.lockCheck()
 	f.evs = append(f.evs, ev{kind: 6, a: int(v), s: value})
+	if f.lastStrs == nil {
+		f.lastStrs = map[int]string{}
+	}
+	f.lastStrs[int(v)] = value
 }
 
 // ---------- shadow screen (C10) ----------
@@ -296,6 +317,7 @@ type runner struct {
 	crashMsg        string
 	wedged          bool
 	blocked         bool
+	resized         bool
 	lockHeldWaiting int
 	opidx           int
 	fed             int
@@ -559,9 +581,135 @@ func (r *runner) observe() []string {
 			break
 		}
 	}
+	// ---- C10: the shadow copy kept from announcements equals the active screen; last announced values are current ----
+	act := &snap.Main
+	if snap.OnAlt {
+		act = &snap.Alt
+	}
+	if r.resized {
+		// Resize is outside C10's quantifier: a frontend repaints everything after it
+		r.resized = false
+		if r.vt.T.TryLock() {
+			r.fe.shadow.refresh(r.vt, termemu.Region{X: 0, Y: 0, X2: act.W, Y2: act.H})
+			r.vt.T.Unlock()
+		}
+		r.fe.shadow.problems = nil
+	}
+	if !r.crashed && !r.wedged && act.RowsOK {
+		for _, pr := range r.fe.shadow.problems {
+			problems = append(problems, "C10 "+pr)
+			break
+		}
+		r.fe.shadow.problems = nil
+		sh := r.fe.shadow.rows
+		done := false
+		for y := 0; y < len(act.Rows) && y < len(sh) && !done; y++ {
+			for x := 0; x < len(act.Rows[y]) && x < len(sh[y]); x++ {
+				c, s := act.Rows[y][x], sh[y][x]
+				if string(c.Text) != s.text || c.Width != s.w || [3]uint32{c.FG, c.BG, c.UL} != s.st {
+					problems = append(problems, fmt.Sprintf("C10 shadow copy differs from the screen at (%d,%d): screen %q w=%d style=%v, copy %q w=%d style=%v",
+						x, y, c.Text, c.Width, [3]uint32{c.FG, c.BG, c.UL}, s.text, s.w, s.st))
+					done = true
+					// resynchronise so that one missed announcement is reported once
+					if r.vt.T.TryLock() {
+						r.fe.shadow.refresh(r.vt, termemu.Region{X: 0, Y: 0, X2: act.W, Y2: act.H})
+						r.vt.T.Unlock()
+					}
+					break
+				}
+			}
+		}
+		if r.fe.haveCursor && (r.fe.lastCX != act.CX || r.fe.lastCY != act.CY) {
+			problems = append(problems, fmt.Sprintf("C10 last CursorMoved(%d,%d) but the cursor is at (%d,%d)", r.fe.lastCX, r.fe.lastCY, act.CX, act.CY))
+			r.fe.lastCX, r.fe.lastCY = act.CX, act.CY
+		}
+		if r.fe.haveStyle && r.fe.lastStyle != [3]uint32{act.FG, act.BG, act.UL} {
+			problems = append(problems, fmt.Sprintf("C10 last StyleChanged %v but the rendition is %v", r.fe.lastStyle, [3]uint32{act.FG, act.BG, act.UL}))
+			r.fe.lastStyle = [3]uint32{act.FG, act.BG, act.UL}
+		}
+		for i, f := range snap.Flags {
+			if v, ok := r.fe.lastFlags[i]; ok && v != b2i(f) {
+				problems = append(problems, fmt.Sprintf("C10 last ViewFlagChanged(%d)=%d but the flag is %d", i, v, b2i(f)))
+				r.fe.lastFlags[i] = b2i(f)
+			}
+		}
+		for i, f := range snap.Ints {
+			if v, ok := r.fe.lastInts[i]; ok && v != f {
+				problems = append(problems, fmt.Sprintf("C10 last ViewIntChanged(%d)=%d but the value is %d", i, v, f))
+				r.fe.lastInts[i] = f
+			}
+		}
+		for i, f := range snap.Strings {
+			if v, ok := r.fe.lastStrs[i]; ok && v != f {
+				problems = append(problems, fmt.Sprintf("C10 last ViewStringChanged(%d)=%q but the value is %q", i, v, f))
+				r.fe.lastStrs[i] = f
+			}
+		}
+	}
 	r.fe.evs = nil
 	r.opidx++
 	return problems
+}
+
+// roundTrip feeds ANSILine(y) of every row of the active screen into a fresh terminal of the same
+// size, mode and buffer kind and compares every cell (C11, first sentence).
+func (r *runner) roundTrip() string {
+	if r.crashed || r.wedged || r.blocked || !r.vt.T.TryLock() {
+		return ""
+	}
+	t := r.vt.Terminal()
+	w, h := t.Size()
+	lines := make([]string, h)
+	for y := 0; y < h; y++ {
+		lines[y] = t.ANSILine(y)
+	}
+	r.vt.T.Unlock()
+	orig := r.vt.Snapshot()
+	act := &orig.Main
+	if orig.OnAlt {
+		act = &orig.Alt
+	}
+	if !act.RowsOK {
+		return ""
+	}
+	be := newBackend()
+	fe := &frontend{}
+	vt2 := termemu.VerifNew(fe, be, r.vt.Mode(), r.hdr.grid != 0, false)
+	msg := ""
+	func() {
+		defer func() {
+			if e := recover(); e != nil {
+				msg = "C11 panic while re-interpreting ANSILine output: " + firstLine(fmt.Sprint(e))
+			}
+		}()
+		vt2.Terminal().Resize(w, h)
+		var stream []byte
+		for y := 0; y < h; y++ {
+			stream = append(stream, []byte(fmt.Sprintf("\x1b[%d;1H", y+1))...)
+			stream = append(stream, lines[y]...)
+		}
+		be.push(chunk{data: stream})
+		be.close()
+		for {
+			if err := vt2.Step(); err != nil {
+				break
+			}
+		}
+	}()
+	if msg != "" {
+		return msg
+	}
+	cp := vt2.Snapshot()
+	for y := 0; y < len(act.Rows) && y < len(cp.Main.Rows); y++ {
+		for x := 0; x < len(act.Rows[y]) && x < len(cp.Main.Rows[y]); x++ {
+			a, b := act.Rows[y][x], cp.Main.Rows[y][x]
+			if string(a.Text) != string(b.Text) || a.Width != b.Width || a.FG != b.FG || a.BG != b.BG {
+				return fmt.Sprintf("C11 ANSILine round trip differs at (%d,%d): screen %q w=%d fg=%d bg=%d, re-interpreted %q w=%d fg=%d bg=%d; line=%q",
+					x, y, a.Text, a.Width, a.FG, a.BG, b.Text, b.Width, b.FG, b.BG, lines[y])
+			}
+		}
+	}
+	return ""
 }
 
 var discard = bufio.NewWriter(io.Discard)
@@ -724,6 +872,7 @@ func runCases(in io.Reader, out io.Writer) {
 					}()
 					r.vt.Terminal().Resize(nums[1], nums[2])
 				}()
+				r.resized = true
 				select {
 				case <-done:
 				case <-time.After(1500 * time.Millisecond):
@@ -737,6 +886,11 @@ func runCases(in io.Reader, out io.Writer) {
 				fmt.Fprintf(w, "P %s %d %s\n", r.hdr.id, r.opidx-1, p)
 			}
 		case 199:
+			if r.hdr.want(9) {
+				if msg := r.roundTrip(); msg != "" {
+					fmt.Fprintf(w, "P %s %d %s\n", r.hdr.id, r.opidx-1, msg)
+				}
+			}
 			r.stop()
 			r = nil
 			w.Flush()
